@@ -542,3 +542,8 @@ def finalize_merged(m, tier):
         m["inconclusive"].append("the native sliding-window kernel plan was never taken")
     if not any("overlap" in k for k in plans):
         m["inconclusive"].append("the overlap plan was never taken")
+
+
+RULE += (
+    ' Every result is also sliced at random and compared with the slice of the reference; blelloch cumsum over object-dtype strings (non-commutative merge).'
+)
